@@ -99,10 +99,14 @@ pub fn token_bytes_from_tokenizer_json(tokenizer_json: &Value) -> Result<Vec<Vec
             if tok_name.len() == 6 && tok_name.starts_with("<0x") && tok_name.ends_with(">") {
                 // parse hex number from tok_name
                 let hex_str = &tok_name[3..5];
-                let byte = u8::from_str_radix(hex_str, 16).unwrap();
+                let byte = u8::from_str_radix(hex_str, 16).map_err(|_| {
+                    anyhow!("invalid byte-fallback token name: {:?}", tok_name)
+                })?;
                 vec![byte]
             } else {
-                assert!(!tok_name.starts_with("<0x"));
+                if tok_name.starts_with("<0x") {
+                    bail!("invalid byte-fallback token name: {:?}", tok_name);
+                }
                 let tok_name = tok_name.replace(space_ch, " ");
                 tok_name.as_bytes().to_vec()
             }
